@@ -727,10 +727,10 @@ static void wlTimedFuture() {
 
 } // namespace
 
-HX_WORKLOAD("C18", "future", wlFuture, SF_ALL, 4000000, 4000000, 1);
-HX_WORKLOAD("C19", "then", wlThen, SF_ALL, 4000000, 4000000, 1);
-HX_WORKLOAD("C19", "then-fanout", wlThenFanout, SF_ALL, 400000, 400000, 2);
-HX_WORKLOAD("C19", "then-lone", wlThenLone, SF_ALL, 400000, 400000, 2);
-HX_WORKLOAD("C19", "when", wlWhen, SF_ALL, 4000000, 4000000, 1);
+HX_WORKLOAD("C18", "future", wlFuture, SF_ALL | SF_TSO, 4000000, 4000000, 1);
+HX_WORKLOAD("C19", "then", wlThen, SF_ALL | SF_TSO, 4000000, 4000000, 1);
+HX_WORKLOAD("C19", "then-fanout", wlThenFanout, SF_ALL | SF_TSO, 400000, 400000, 2);
+HX_WORKLOAD("C19", "then-lone", wlThenLone, SF_ALL | SF_TSO, 400000, 400000, 2);
+HX_WORKLOAD("C19", "when", wlWhen, SF_ALL | SF_TSO, 4000000, 4000000, 1);
 HX_WORKLOAD("C20", "timed-event", wlTimedEvent, SF_ALL, 4000000, 4000000, 1);
 HX_WORKLOAD("C20", "timed-future", wlTimedFuture, SF_ALL, 4000000, 4000000, 1);
